@@ -453,65 +453,71 @@ func (idx *KVIndex) FieldTermNumberRange(field string, min, max float64) chan KV
 	minBytes, _ := GetTermBytes(min)
 	maxBytes, _ := GetTermBytes(max)
 	out := make(chan KVTermCount, 100)
-	defer close(out)
 	if min > max {
+		close(out)
 		return out
 	}
 
-	if min < 0 {
-		minPrefix := EntryValuePrefix(field, TermNumber, minBytes)
-		maxPrefix := EntryValuePrefix(field, TermNumber, maxBytes)
-		if max > 0 {
-			maxPrefix = EntryValuePrefix(field, TermNumber, floatPosInfBytes)
-		}
-		idx.KV.View(func(it kvi.KVIterator) error {
-			var count uint64
-			last := math.Inf(1)
-			for it.SeekReverse(minPrefix); it.Valid() && bytes.Compare(maxPrefix, it.Key()) < 0; it.Next() {
-				_, _, term, _ := EntryKeyParse(it.Key())
-				val := GetBytesTerm(term, TermNumber).(float64)
-				if val != last {
-					if count > 0 {
-						out <- KVTermCount{Number: last, Count: count}
-					}
-					last = val
-					count = 0
-				}
-				count++
-			}
-			if count > 0 {
-				out <- KVTermCount{Number: last, Count: count}
-			}
-			return nil
-		})
-	}
-	if max >= 0 {
-		minPrefix := EntryValuePrefix(field, TermNumber, minBytes)
+	//the scan runs while the caller reads: the number of terms in the range is not limited by the channel buffer
+	go func() {
+		defer close(out)
 		if min < 0 {
-			minPrefix = EntryValuePrefix(field, TermNumber, floatZeroBytes)
-		}
-		maxPrefix := EntryValuePrefix(field, TermNumber, maxBytes)
-		idx.KV.View(func(it kvi.KVIterator) error {
-			var count uint64
-			last := math.Inf(1)
-			for it.Seek(minPrefix); it.Valid() && bytes.Compare(it.Key(), maxPrefix) < 0; it.Next() {
-				_, _, term, _ := EntryKeyParse(it.Key())
-				val := GetBytesTerm(term, TermNumber).(float64)
-				if val != last {
-					if count > 0 {
-						out <- KVTermCount{Number: last, Count: count}
+			minPrefix := EntryValuePrefix(field, TermNumber, minBytes)
+			maxPrefix := EntryValuePrefix(field, TermNumber, maxBytes)
+			//the negative terms sort after all the non-negative ones: unless max is negative too,
+			//the scan of the negative terms ends where they end
+			if max >= 0 {
+				maxPrefix = EntryValuePrefix(field, TermNumber, floatPosInfBytes)
+			}
+			idx.KV.View(func(it kvi.KVIterator) error {
+				var count uint64
+				last := math.Inf(1)
+				for it.SeekReverse(minPrefix); it.Valid() && bytes.Compare(maxPrefix, it.Key()) < 0; it.Next() {
+					_, _, term, _ := EntryKeyParse(it.Key())
+					val := GetBytesTerm(term, TermNumber).(float64)
+					if val != last {
+						if count > 0 {
+							out <- KVTermCount{Number: last, Count: count}
+						}
+						last = val
+						count = 0
 					}
-					last = val
-					count = 0
+					count++
 				}
-				count++
+				if count > 0 {
+					out <- KVTermCount{Number: last, Count: count}
+				}
+				return nil
+			})
+		}
+		if max >= 0 {
+			minPrefix := EntryValuePrefix(field, TermNumber, minBytes)
+			if min < 0 {
+				minPrefix = EntryValuePrefix(field, TermNumber, floatZeroBytes)
 			}
-			if count > 0 {
-				out <- KVTermCount{Number: last, Count: count}
-			}
-			return nil
-		})
-	}
+			maxPrefix := EntryValuePrefix(field, TermNumber, maxBytes)
+			idx.KV.View(func(it kvi.KVIterator) error {
+				var count uint64
+				last := math.Inf(1)
+				for it.Seek(minPrefix); it.Valid() && bytes.Compare(it.Key(), maxPrefix) < 0; it.Next() {
+					_, _, term, _ := EntryKeyParse(it.Key())
+					val := GetBytesTerm(term, TermNumber).(float64)
+					if val != last {
+						if count > 0 {
+							out <- KVTermCount{Number: last, Count: count}
+						}
+						last = val
+						count = 0
+					}
+					count++
+				}
+				if count > 0 {
+					out <- KVTermCount{Number: last, Count: count}
+				}
+				return nil
+			})
+		}
+	}()
 
 	return out
 }
